@@ -175,5 +175,25 @@ CLAIMED['C08'] = {
     'note': 'ThreadPoolExecutor/as_completed replaced by a stub (each task once, chosen order); the two defects first recorded here (SystemExit from the packet reader, raw error text inside the JSON array) are repaired by fix: commits.',
 }
 
+# additions of the closing hours (sixth seeding round and its side remarks), appended to the texts above
+_EXTRA = {
+    'C02': 'Client audits fold the same way; a policy audit of an out-dated built-in policy still maps passed/failed to 0/3.',
+    'C03': 'A name that lives in two categories is looked up in both with each category\'s notes; unknown names of Terrapin-relevant shape stay unknown in every view.',
+    'C04': 'With the whole table advertised at once exactly the rule\'s rows change (no row edited through another row).',
+    'C08': 'Through the real command line a targets file of 1..3 lines yields one JSON array with one element per line; a host name that cannot be IDNA-encoded is a connection error; JSON carries no terminal colour codes.',
+    'C09': 'SSH-1 masks with arbitrary unknown bits still give a complete report; a client audit whose client stalls at any stage terminates (the accepted socket carries the configured timeout); algorithm names reach the terminal in printable ASCII only.',
+    'C10': 'A packet is sent completely when the OS accepts only n bytes per call.',
+    'C11': 'ECDSA host keys and certificates of the three NIST curves are measured by their own layout (256/384/521 bits) with CA type and size; RSA keys and CAs up to 16384 bits; a blob whose length fields exceed the received data is rejected; a failed first RSA probe falls back to the next family name; the master table is untouched.',
+    'C12': 'If one probe of the sequence (any position) gets no answer the reported size is still the smallest modulus actually handed out, or none; moduli of 8191/8192 bits are measured.',
+    'C13': 'The text report recommends exactly what the JSON report recommends; a second server with the same software and another configuration gets its own recommendations.',
+    'C14': 'A portable OpenSSH release X.YpN (any digit N) is never older than release X.Y.',
+    'C15': 'The exit status with -j/-jj equals the text report\'s (also for general-section findings); stdout stays one JSON document when the probe phases run into refused, silent or reset connections.',
+    'C17': 'Lift: the real Policy.evaluate of every built-in policy rejects a peer that offers one extra algorithm rated as a failure (every such name, category and position).',
+    'C18': 'Every spelling of the IP-version options (long, short, bundled, mixed) yields the requested order; the target label is shown at every output level, in policy reports too.',
+    'C19': 'Probe connections that are reset, closed or silent before the banner, and names resolving to several addresses, keep the connection bounds; a socket whose shutdown() fails is still closed.',
+}
+for _k, _v in _EXTRA.items():
+    CLAIMED[_k]['text'] = CLAIMED[_k]['text'].rstrip() + ' ' + _v
+
 NOT_APPLICABLE = {
 }
